@@ -19,7 +19,10 @@
    Debug assertions of the Rust (range covers Pending, range end beyond size, window reduced,
    position overflow) and the checked u64 addition in `pick` are explicit [PV] outcomes
    ("precondition violated"): the harness runs the debug profile, catches the panic and reports
-   the same observation [-1] for that operation and all later ones of the case. *)
+   the same observation [-1] for that operation and all later ones of the case.
+   Since the repair of finding F70 SendBuf::on_data_acked / may_loss_data cut the reported range down
+   to its sent part first, so that BufMap::ack_rcvd / may_loss are only reached with ranges below
+   `sent()` (c09_report_total: their assertions are unreachable through SendBuf). *)
 From Coq Require Import List NArith ZArith Bool.
 From GQ Require Export Lib.Base.
 Import ListNotations.
@@ -311,8 +314,10 @@ Definition pick_up (c : N -> Z) (b : sndbuf) (pred : N -> option N) (flow : N) :
   | PickPV => UpPV
   end.
 
-(* an empty range (`range.is_empty()`, i.e. end <= start: the range of a FIN-only frame) is ignored *)
-Definition on_data_acked (b : sndbuf) (s e : N) : option sndbuf :=
+(* [on_data_acked_sent] / [may_loss_data_sent]: the body of the two report functions once the range has
+   been cut down to the part that has been sent.  An empty range (`range.is_empty()`, i.e. end <= start:
+   the range of a FIN-only frame, or a range that lies completely in the never-sent part) is ignored *)
+Definition on_data_acked_sent (b : sndbuf) (s e : N) : option sndbuf :=
   if e <=? s then Some b else
   match ack_rcvd (st b) s e with
   | None => None
@@ -323,12 +328,22 @@ Definition on_data_acked (b : sndbuf) (s e : N) : option sndbuf :=
       else Some (mksb (base b) (retained b) (max_data b) m2)
   end.
 
-Definition may_loss_data (b : sndbuf) (s e : N) : option sndbuf :=
+Definition may_loss_data_sent (b : sndbuf) (s e : N) : option sndbuf :=
   if e <=? s then Some b else
   match may_loss (st b) s e with
   | None => None
   | Some m => Some (mksb (base b) (retained b) (max_data b) m)
   end.
+
+(* SendBuf::on_data_acked / may_loss_data (since the repair of finding F70): `range.start..range.end.min(self.sent())`,
+   i.e. only data sent since the last forget_sent_state can be acknowledged or lost; the Pending part of a
+   report (a frame of a 0-RTT packet that is still in the sent journal after the rejection made the stream
+   forget its sent state) is ignored instead of failing BufMap's `covered Pending parts` assertion *)
+Definition on_data_acked (b : sndbuf) (s e : N) : option sndbuf :=
+  on_data_acked_sent b s (N.min e (sent b)).
+
+Definition may_loss_data (b : sndbuf) (s e : N) : option sndbuf :=
+  may_loss_data_sent b s (N.min e (sent b)).
 
 Definition resend (b : sndbuf) : sndbuf :=
   mksb (base b) (retained b) (max_data b) (resend_flighting (st b)).
